@@ -49,3 +49,18 @@ func init() {
 		return 0
 	}
 }
+
+func init() {
+	subcmds["tojson"] = func(args []string) int {
+		for _, a := range args {
+			vm := ds.NewVM()
+			if err := vm.Run(a); err != nil {
+				fmt.Printf("%q ERR %v\n", a, err)
+				continue
+			}
+			b, err := vm.Ret.ToJSON()
+			fmt.Printf("%q => %s err=%v\n", a, string(b), err)
+		}
+		return 0
+	}
+}
